@@ -303,7 +303,10 @@ impl<T: TransportParticipantFactory> DomainParticipantFactoryAsync<T> {
                     .min(time_until_stale_participant.unwrap_or(poke_time))
                     .min(time_until_stale_writer_sample.unwrap_or(poke_time))
                     .min(time_until_pending_writer_sample_timeout.unwrap_or(poke_time))
-                    .min(time_until_participant_announcement.unwrap_or(poke_time));
+                    .min(time_until_participant_announcement.unwrap_or(poke_time))
+                    // An event that is already overdue must be handled now: a negative duration
+                    // would otherwise be converted to a huge unsigned one
+                    .max(Duration::new(0, 0));
 
                 match select_future(
                     dcps_receiver.receive(),
